@@ -34,14 +34,34 @@ float verif_nondet_float(void) { In x = next('d'); if (x.k == 'i') { float d; ui
 void __CPROVER_assume(bool c) { if (!c) { std::printf("VERIF-ASSUME-FALSE (model does not satisfy the harness precondition natively)\n"); std::fflush(stdout); std::_Exit(4); } }
 void __VERIFIER_assert(bool c) { ++asserts_run; if (!c) { std::printf("VERIF-ASSERT-FAIL (assertion #%d in execution order)\n", asserts_run); std::fflush(stdout); std::_Exit(3); } }
 void verif_observe(long tag, long value) { std::printf("OBS %ld %ld\n", tag, value); }
-// memfile: the symbolic file image becomes a real temporary file
+// memfiles: file id k is the real file <tmpdir>/mf_<k>; the harness opens its writer on verif_memfile_path(k) when built natively
+#include <sys/stat.h>
+static std::string mf_dir() { static std::string d; if (d.empty()) { char t[] = "/tmp/verif_mf_XXXXXX"; d = mkdtemp(t); } return d; }
+static int mf_count = 0;
+const char* verif_memfile_path(long fid) { static std::string p[64]; p[fid % 64] = mf_dir() + "/mf_" + std::to_string(fid); return p[fid % 64].c_str(); }
+static std::string mf_read(long fid) { std::ifstream f(verif_memfile_path(fid), std::ios::binary); return std::string((std::istreambuf_iterator<char>(f)), std::istreambuf_iterator<char>()); }
+static void mf_write(long fid, const std::string& d) { std::ofstream f(verif_memfile_path(fid), std::ios::binary | std::ios::trunc); f.write(d.data(), d.size()); }
 std::fstream* verif_memfile(unsigned long n) {
-    load();
-    static char name[] = "/tmp/verif_memfile_XXXXXX"; int fd = mkstemp(name);
+    load(); long fid = ++mf_count;
     std::string data; size_t k = 0;
     for (auto& x : ins) if (x.k == 'b' && k < n) { data.push_back((char) x.i); ++k; }
-    data.resize(n, 0);
-    if (::write(fd, data.data(), data.size()) < 0) {} ::close(fd);
-    auto* f = new std::fstream(name, std::ios::in | std::ios::out | std::ios::binary); ::unlink(name); return f;
+    data.resize(n, 0); mf_write(fid, data);
+    return new std::fstream(verif_memfile_path(fid), std::ios::in | std::ios::out | std::ios::binary);
 }
+static int mf_anon = 900;
+std::fstream* verif_memfile_new(void) { long fid = ++mf_anon; mf_write(fid, ""); return new std::fstream(verif_memfile_path(fid), std::ios::in | std::ios::out | std::ios::binary); }
+void verif_stream_bind(void* p, long fid, long kind) {
+    if (kind == 2) { auto* f = static_cast<std::fstream*>(p); f->close(); f->clear(); f->open(verif_memfile_path(fid), std::ios::in | std::ios::out | std::ios::binary); }
+    else if (kind == 1) { auto* f = static_cast<std::ifstream*>(p); f->close(); f->clear(); f->open(verif_memfile_path(fid), std::ios::in | std::ios::binary); }
+    /* kind 0: the writer object was constructed by the harness on verif_memfile_path(fid) */
+}
+long verif_memfile_size(long fid) { return (long) mf_read(fid).size(); }
+unsigned char verif_memfile_byte(long fid, long i) { static long cf = -1; static std::string c; static long csz = -1; std::string d; struct stat sb; 
+    if (cf != fid || stat(verif_memfile_path(fid), &sb) != 0 || sb.st_size != csz) { c = mf_read(fid); cf = fid; csz = (long) c.size(); }
+    return i < (long) c.size() ? (unsigned char) c[i] : 0; }
+void verif_memfile_setbyte(long fid, long i, unsigned char b) { std::string d = mf_read(fid); if ((long) d.size() <= i) d.resize(i + 1, 0); d[i] = (char) b; mf_write(fid, d); }
+void verif_memfile_truncate(long fid, long n) { std::string d = mf_read(fid); if ((long) d.size() > n) d.resize(n); mf_write(fid, d); }
+void verif_memfile_rewind(long) { }
+long verif_memfile_gpos(long) { return -1; }   /* not observable natively */
+int verif_memfile_failed(long) { return 0; }
 }
